@@ -97,6 +97,8 @@ func c10TokenBodiesBase(provider string) []c10Body {
 			{Name: "email-verified-false-with-hosted-domain-claim", Body: tok(claims(`{"email":"` + c10Email + `","email_verified":false,"hd":"corp.test"}`)), Vouches: false, Email: ""},
 			{Name: "email-verified-absent-with-hosted-domain-claim", Body: tok(claims(`{"email":"outsider@partner.test","hd":"corp.test"}`)), Vouches: false, Email: ""},
 			{Name: "email-verified-absent", Body: tok(claims(`{"email":"` + c10Email + `"}`)), Vouches: false, Email: ""},
+			{Name: "unverified-email-without-at-sign", Body: tok(claims(`{"email":"mallory","email_verified":false}`)), Vouches: false, Email: ""},
+			{Name: "verification-absent-email-without-at-sign", Body: tok(claims(`{"email":"@","hd":"corp.test"}`)), Vouches: false, Email: ""},
 			{Name: "email-verified-string", Body: tok(claims(`{"email":"` + c10Email + `","email_verified":"true"}`)), Vouches: false, Email: ""},
 			{Name: "empty-email", Body: tok(claims(`{"email":"","email_verified":true}`)), Vouches: false, Email: ""},
 			{Name: "email-is-number", Body: tok(claims(`{"email":42,"email_verified":true}`)), Vouches: false, Email: ""},
@@ -152,6 +154,7 @@ func c10UserinfoBodiesBase(provider string) []c10Body {
 		{Name: "empty-email", Body: `{"email":"","email_verified":true}`, Vouches: false, Email: ""},
 		{Name: "no-email", Body: `{"email_verified":true,"sub":"123"}`, Vouches: false, Email: ""},
 		{Name: "email-without-at-sign", Body: `{"email":"alice","username":"alice","email_verified":true}`, Vouches: true, Email: "alice"},
+		{Name: "unverified-email-without-at-sign", Body: `{"email":"mallory","email_verified":false}`, Vouches: !ver, Email: "mallory"},
 		// no email at all, while other attributes (sign-in name, display name, ...) look like addresses: those are
 		// chosen by the account holder, the provider did not return them as the email for this code
 		{Name: "no-email-address-shaped-other-fields", Body: `{"sub":"9a1d","username":"ceo@corp.test","preferred_username":"ceo@corp.test","name":"ceo@corp.test","login":"ceo@corp.test","upn":"ceo@corp.test","nickname":"ceo@corp.test","email_verified":true}`, Vouches: false, Email: ""},
@@ -221,6 +224,7 @@ func c10Run(c *fw.Ctx) {
 	drive(c, "product", -1, func(x *explore.Exec, owned bool) {
 		target := targets[x.Choose("target", len(targets))]
 		provider := strings.TrimSuffix(strings.Split(target, "/")[0], "-hosted-domain")
+		signedIn := strings.HasSuffix(target, "/callback") && x.Choose("browser-already-signed-in", 2) == 1
 		tb := c10TokenBodies(provider, c.Thorough())
 		tStatus := tStatuses[x.Choose("token-status", len(tStatuses))]
 		tBody := tb[x.Choose("token-body", len(tb))]
@@ -286,6 +290,13 @@ func c10Run(c *fw.Ctx) {
 				q.Set("code", "the-code")
 				q.Set("state", base64.URLEncoding.EncodeToString([]byte(nonce+":https://app.sso.test/oauth2/callback")))
 				hdr := http.Header{"Cookie": {e.CookieName + "_csrf=" + nonce}}
+				if signedIn {
+					// the browser still holds a valid authenticator session from an earlier login
+					fut := harness.At(time.Hour)
+					earlier := &sessions.SessionState{ProviderSlug: e.Slug, AccessToken: "earlier-access-token", RefreshToken: "earlier-refresh-token", Email: "earlier.login@corp.test", User: "earlier.login",
+						LifetimeDeadline: fut, RefreshDeadline: fut, ValidDeadline: fut}
+					hdr.Set("Cookie", e.CookieName+"_csrf="+nonce+"; "+e.CookieName+"="+e.Seal(earlier))
+				}
 				r := e.Do(harness.NewRequest("GET", "/"+e.Slug+"/callback?"+q.Encode(), harness.AuthHost, hdr, nil))
 				panicked = r.Panic
 				status = r.Status
@@ -319,7 +330,7 @@ func c10Run(c *fw.Ctx) {
 		if strings.HasSuffix(target, "/callback") && !strings.HasSuffix(wantEmail, "@corp.test") {
 			vouched = false // vouched for by the provider, but the authenticator's own email rule refuses it
 		}
-		desc := map[string]interface{}{"target": target, "token_status": tStatus, "token_body": tBody.Name, "token_connection_reset": tReset,
+		desc := map[string]interface{}{"target": target, "browser_already_holds_a_valid_session": signedIn, "token_status": tStatus, "token_body": tBody.Name, "token_connection_reset": tReset,
 			"userinfo_asked": userinfoAsked, "reference_vouches": vouched, "error": fmt.Sprint(callErr), "http_status": status}
 		if userinfoAsked {
 			desc["userinfo_status"], desc["userinfo_body"], desc["userinfo_connection_reset"] = uStatus, uBody.Name, uReset
@@ -334,7 +345,7 @@ func c10Run(c *fw.Ctx) {
 		if userinfoAsked {
 			ub = fmt.Sprintf("%d/%s/%v", uStatus, uBody.Name, uReset)
 		}
-		c.Res.Outcome(fmt.Sprintf("%s|%d|%s|%v|%s|sess=%v|panic=%v", target, tStatus, tBody.Name, tReset, ub, sess != nil, panicked != nil))
+		c.Res.Outcome(fmt.Sprintf("%s|in=%v|%d|%s|%v|%s|sess=%v|panic=%v", target, signedIn, tStatus, tBody.Name, tReset, ub, sess != nil, panicked != nil))
 		if c.Res.Execs%2000 == 13 {
 			c.Res.Sample(desc)
 		}
@@ -368,7 +379,7 @@ func init() {
 		ID:    "C10",
 		Level: "fault_enumeration",
 		Rule: "full product of identity-provider answers, with the userinfo answer enumerated on demand (only on executions that reach that call): token endpoint status {200,400,401,403,429,500,503} x body {complete, missing fields, id_token with 0/1/2/4 segments, bad base64, bad JSON, email_verified false/absent/string, empty or non-string email, truncated JSON, empty, HTML, array, null, a complete answer followed by text / by a second object / stopping short of its announced length, provider error documents with `error` as object / null / number / string} x connection reset; userinfo status {200,401,500,429} x body {verified, unverified, absent flag, string flag, empty/no email, no or empty email next to address-shaped username / preferred_username / name / sub, truncated, empty, HTML, null} x connection reset; " +
-			"targets: GoogleProvider.Redeem (also configured with a hosted domain), OktaProvider.Redeem, AmazonCognitoProvider.Redeem (URLs pointed at the scripted IdP) and Okta and Cognito end-to-end through the unmodified NewAuthenticatorMux /callback; " +
+			"targets: GoogleProvider.Redeem (also configured with a hosted domain), OktaProvider.Redeem, AmazonCognitoProvider.Redeem (URLs pointed at the scripted IdP) and Okta and Cognito end-to-end through the unmodified NewAuthenticatorMux /callback, there also with a browser that still holds a valid session from an earlier login; " +
 			"thorough adds: EVERY proper prefix of the complete token answer and of the complete userinfo answer as a cleanly framed body, the same answers cut on the wire at every 8th byte (full Content-Length announced, connection closed early), statuses 302/404/502 (userinfo: 302/403/404/503), email_verified as number/null/\"false\", email as array/null, a JSON array, two concatenated objects; " +
 			"oracle: a session exists => the provider answered 200 with a complete answer for exactly that email, verified where Google/Okta require it; every other answer => an error (>= 400 page, no session cookie); a panic counts as a crash of the request; " +
 			"distinct_nontrivial = distinct (target, token status/body/reset, userinfo status/body/reset, session?, panic?)",
